@@ -204,8 +204,8 @@ def doShard (a : Json) : Except String Json := do
   pure <| encArr (fun u => J.nat (getShardID n u)) names
 
 def doConsts : Json :=
-  J.obj [("timeoutMs", J.nat timeout), ("syncPeriodMs", J.nat KG.Gen.C18.syncPeriodMs),
-    ("cleanupPeriodMs", J.nat KG.Gen.C18.cleanupPeriodMs), ("label", Json.str KG.Gen.C18.instanceLabel)]
+  J.obj [("timeoutMs", J.nat timeout), ("timeoutPassPeriodMs", J.nat KG.Gen.C18.timeoutPassPeriodMs),
+    ("unknownPassPeriodMs", J.nat KG.Gen.C18.unknownPassPeriodMs), ("label", Json.str KG.Gen.C18.instanceLabel)]
 
 def handle (m : String) (a : Json) : Option (Except String Json) :=
   match m with
